@@ -44,15 +44,17 @@ theorem reserved_names_tie : Gen.reservedContainerNames = reservedNames := by de
     annotations incl. a status annotation, hostPID/IPC, DNS policy, containers, volumes, config
     templates/aliases; other ignored / non-ignored namespace names; other garbage label values and
     illegal policy strings; selectors realised through expressions, preceded by invalid and empty
-    entries; no selector at all instead of a non-matching one; a second evaluation at the end):
+    entries; no selector at all instead of a non-matching one; a second evaluation at the end; all DNS policies with
+    hostPID/IPC; every irrelevant field drawn per row; nil label / annotation maps with selectors that match through the
+    absence of a key):
     every variant gives the same answer on every row. -/
 theorem decision_deterministic (m : Nat) (hm : m ∈ Gen.variantBits) (r : Row) :
     bitAt m r.idx = injectImpl r := by
   have h : ∀ m ∈ Gen.variantBits, m = Gen.implBits := by decide +kernel
   rw [h m hm]; rfl
 
-/-- At least the canonical table and six variants were generated. -/
-theorem variants_present : 7 ≤ Gen.variantBits.length ∧ Gen.variantBits.length = Gen.variantNames.length := by
+/-- Exactly the ten named variants were generated (canonical + nine). -/
+theorem variants_present : Gen.variantBits.length = 10 ∧ Gen.variantNames.length = 10 := by
   decide +kernel
 
 /-! ## The precedence, clause by clause, about the real function (all rows) -/
